@@ -92,6 +92,14 @@ MUTANTS = [
     M("c12", "cg", CG, "    elif b in event:\n        if not isinstance(a, CounterfactualVariable) or event[b] not in a.interventions:\n            return False\n        else:\n            return True\n",
       "    elif b in event:\n        return False\n", OUT,
       "dropped case (the mirrored one: second node observed, first intervened): fewer merges"),
+    M("c58", "cg", CG, "        if not isinstance(a, CounterfactualVariable) or event[b] not in a.interventions:\n",
+      "        if not isinstance(a, CounterfactualVariable) or event[b].get_base() not in {i.get_base() for i in a.interventions}:\n", ["C18"],
+      "lost polarity in the MIRRORED case (twin of c11): the second parent copy is observed, the first intervened: only reached in the world-pair loop with "
+      "a parent X intervened in one counterfactual world and observed in another world that X's factual copy does not merge with (A -> X -> Y, worlds "
+      "{X: x'} and {A: a}, event X_a = x, Y_x' = y, Y_a = y')"),
+    M("c59", "cg", CG, "    elif b in event:\n        if not isinstance(a, CounterfactualVariable) or event[b] not in a.interventions:\n            return False\n        else:\n            return True\n",
+      "    elif b in event:\n        return True\n", ["C18"],
+      "dropped test in the mirrored case: an observed second parent copy always 'attains the value' of the first"),
     M("c13", "cg", CG, "    elif isinstance(a, CounterfactualVariable) or isinstance(b, CounterfactualVariable):\n        return False\n    return True\n",
       "    elif isinstance(a, CounterfactualVariable) and isinstance(b, CounterfactualVariable):\n        return False\n    return True\n", ["C18"],
       "or -> and: an unobserved factual parent X and its unobserved, un-mergeable copy X_z 'attain the same value': Z -> X -> Y with Y = y, Y_z = y' is reported inconsistent"),
@@ -99,9 +107,8 @@ MUTANTS = [
       "    elif isinstance(a, CounterfactualVariable) or isinstance(b, CounterfactualVariable):\n        return False\n    return False\n", EQ,
       "dead code: two DISTINCT factual variables with the same base do not exist (a == b returned at the top)"),
     M("c15", "cg", CG, "    elif a.get_base() != b.get_base():\n        return False\n    elif a in event and b in event:\n", "    elif a in event and b in event:\n", EQ,
-      "dropped guard: the zip pairs parents sorted by base and two copies of a node have copies of the same parents; has_same_confounders / the "
-      "later cases never accept two different variables that are not both observed at ... (kept as a probe: a pair of different bases can only "
-      "arise from remainders with different base sets, which the stitching never produces)"),
+      "dropped guard, unreachable: the zip pairs the differing parents sorted by base name, and two copies of one variable always have copies of "
+      "the same parents (an intervened copy has none and never passes has_same_function), so a pair with different bases does not arise"),
     # ---- parents_attain_same_values
     M("c16", "cg", CG, "    remainder_a, remainder_b = parents_a - parents_b, parents_b - parents_a\n", "    remainder_a, remainder_b = parents_a - parents_b, parents_a - parents_b\n", ["C18"],
       "stale variable: the parents only the first node has are compared with themselves: every pair of copies whose parent sets have the same size passes"),
@@ -136,8 +143,8 @@ MUTANTS = [
       "dropped statement: the children of the eliminated node lose that parent: the produced graph misses ancestors of the relabelled event "
       "(probabilities unchanged): only the independent reading of 'ancestors' can see it (as seeded/C18b)"),
     M("c27", "cg", CG, "    directed += [(node1, v) for u, v in graph.directed.edges() if node2 == u]\n", "    directed += [(node1, v) for u, v in graph.directed.edges() if node2 == v]\n", ["C18"],
-      "wrong endpoint: the kept node points at the eliminated node's own position: self-loop node1 -> node1 when ... no: (node1, node2) edges re-create "
-      "the eliminated node as a child of the kept one, and its children lose the parent"),
+      "wrong endpoint: the edges INTO the eliminated node are redirected (node1 -> node2 re-creates the eliminated node as a child of the kept one) "
+      "instead of the edges out of it: its children lose that parent"),
     M("c28", "cg", CG, "    undirected.update(\n        frozenset({node1, v}) for u, v in graph.undirected.edges() if node2 == u and node1 != v\n    )\n", "", EQ,
       "dropped statement, redundant by the stitching: every bidirected neighbour of the eliminated copy is already a neighbour of the kept copy "
       "(all non-intervened copies of two confounded variables are pairwise adjacent)"),
@@ -174,9 +181,12 @@ MUTANTS = [
       "stale variable: Lemma 24 is tested with the ORIGINAL event; its keys for eliminated nodes are never looked up, the kept nodes that only the "
       "relabelled event mentions count as unobserved: fewer merges"),
     M("c40", "cg", CG, "                cf_graph, preferred_node, eliminated_node = merge_pw(\n                    cf_graph, node, node_at_interventions\n                )\n",
-      "                cf_graph, preferred_node, eliminated_node = merge_pw(\n                    pw_graph, node, node_at_interventions\n                )\n", ["C18"],
-      "wrong graph: every factual merge starts again from the parallel-worlds graph, un-doing the earlier merges while the event stays relabelled: "
-      "earlier eliminated copies come back as parents (two copies of a parent / parents that are not the relabelled ones)"),
+      "                cf_graph, preferred_node, eliminated_node = merge_pw(\n                    pw_graph, node, node_at_interventions\n                )\n", OUT,
+      "wrong graph: every factual merge starts again from the parallel-worlds graph, un-doing the earlier merges while the event stays relabelled. "
+      "REVISED after round 1 (first guess: breaks C18; the check showed 238 disagreements with the model and no oracle failure in ~15 000 cases): every "
+      "relabelling made is still a legitimate Lemma-24 merge, the later tests run on a LESS merged graph (more conservative), and the returned graph is "
+      "the ancestral part of the parallel-worlds graph with one merge, in which every node has exactly the copies of its parents in its own world (or a "
+      "node that equals them on the event): all three clauses of C18 hold, the graph is only larger than necessary"),
     M("c41", "cg", CG, "                if is_inconsistent(new_event, preferred_node, eliminated_node):\n                    return cf_graph, None\n",
       "                if is_inconsistent(new_event, preferred_node, eliminated_node):\n                    continue\n", ["C18"],
       "early return replaced by continue: an inconsistent pair is merged in the graph but both conjuncts stay: the event keeps a variable that was "
@@ -218,8 +228,9 @@ MUTANTS = [
       "dropped operand: the bidirected edges between FACTUAL variables are missing from the parallel-worlds graph (outside C18; districts of ID* split)",
       run=["C18", "C07"]),
     M("c56", "cg", CG, "        rv.add((b, a))\n", "        rv.add((a, b))\n", EQ, "undirected edges: orientation is irrelevant"),
-    M("c57", "cg", CG, "        *(node @ world for world in worlds for node in graph.nodes()),\n", "        *(node @ world for world in worlds for node in graph.nodes() if graph.directed.degree(node) or graph.undirected.degree(node)),\n", ["C18"],
-      "edge-less nodes get no counterfactual copy: an event on an isolated variable Y_x is not a node of the produced graph (KeyError / missing event variable)"),
+    M("c57", "cg", CG, "        *(node @ world for world in worlds for node in graph.nodes()),\n", "        *(node @ world for world in worlds for node in graph.nodes() if graph.directed.degree(node) or graph.undirected.degree(node)),\n", OUT,
+      "edge-less nodes get no counterfactual copy. REVISED (first guess: a missing event variable): the repair ce3041e re-adds every variable of the relabelled "
+      "event as a node, and an isolated variable has no parents to represent, so Y_x is only not merged with Y any more (fewer merges)"),
     # =============================================================================================== id_star.py (C07)
     M("i01", "idstar", IDS, "    if not event:\n        return One()\n", "    if not event:\n        return Zero()\n", ["C07"],
       "wrong constant: the empty conjunction (reached through line 3 when every conjunct is a tautology) gets probability 0"),
